@@ -15,6 +15,7 @@ type globGen struct {
 	maxG   int
 	nStmt  int
 	big    bool
+	decl   []string // names declared so far in the block being generated (literal glob segments prefer them)
 }
 
 var (
@@ -63,6 +64,14 @@ func GlobProgram(r *R, big bool) []*LStmt {
 		total = r.Range(8, 24)
 	}
 	out := g.stmts(total, 0, false)
+	// a filtered glob is only judged when nothing follows it: put most of them last
+	for i := 0; i < len(out); i++ {
+		s := out[i]
+		if s.Tag == "glob" && len(s.Body) > 0 && s.Body[0].Tag == "filter" && r.P(0.75) && i != len(out)-1 {
+			out = append(append(out[:i:i], out[i+1:]...), s)
+			break
+		}
+	}
 	if r.P(0.22) {
 		// layers, possibly with a board-wide glob before or after
 		tri := g.tripleGlob()
@@ -94,6 +103,15 @@ func GlobProgram(r *R, big bool) []*LStmt {
 }
 
 func (g *globGen) name() string { return Pick(g.r, g.names) }
+
+// litName: a literal name inside a glob key; mostly one that exists already (a glob key naming
+// an absent object is outside the judged fragment).
+func (g *globGen) litName() string {
+	if len(g.decl) > 0 && g.r.P(0.9) {
+		return Pick(g.r, g.decl)
+	}
+	return g.name()
+}
 
 func (g *globGen) pattern() string {
 	r := g.r
@@ -155,7 +173,11 @@ func (g *globGen) filter() *LStmt {
 	case 0, 1:
 		f = "&shape: " + Pick(r, []string{"circle", "rectangle", "oval"})
 	case 2:
-		f = "&label: " + strings.ToLower(g.pattern())
+		pat := g.pattern()
+		for pat == "*" {
+			pat = g.pattern() // `&label: *` means "has a label field" in d2, not a pattern
+		}
+		f = "&label: " + strings.ToLower(pat)
 	case 3:
 		f = "&label: " + Pick(r, append([]string{"ab", "hello"}, g.names...))
 	default:
@@ -181,9 +203,9 @@ func (g *globGen) glob(depth int) *LStmt {
 		s := &LStmt{Arrow: Pick(r, []string{"->", "->", "--", "<-", "<->"}), Tag: "glob"}
 		switch r.Intn(4) {
 		case 0:
-			s.Src, s.Dst = []string{g.pattern()}, []string{g.name()}
+			s.Src, s.Dst = []string{g.pattern()}, []string{g.litName()}
 		case 1:
-			s.Src, s.Dst = []string{g.name()}, []string{g.pattern()}
+			s.Src, s.Dst = []string{g.litName()}, []string{g.pattern()}
 		default:
 			s.Src, s.Dst = []string{g.pattern()}, []string{g.pattern()}
 		}
@@ -197,9 +219,9 @@ func (g *globGen) glob(depth int) *LStmt {
 		s := &LStmt{Arrow: Pick(r, []string{"->", "->", "->", "--", "<-", "<->"}), Idx: "*", Tag: "glob"}
 		switch r.Intn(5) {
 		case 0:
-			s.Src, s.Dst = []string{g.name()}, []string{g.pattern()}
+			s.Src, s.Dst = []string{g.litName()}, []string{g.pattern()}
 		case 1:
-			s.Src, s.Dst = []string{g.pattern()}, []string{g.name()}
+			s.Src, s.Dst = []string{g.pattern()}, []string{g.litName()}
 		default:
 			s.Src, s.Dst = []string{g.pattern()}, []string{g.pattern()}
 		}
@@ -207,7 +229,7 @@ func (g *globGen) glob(depth int) *LStmt {
 			s.Idx = "0"
 		}
 		if r.P(0.15) {
-			s.Key = []string{g.name()}
+			s.Key = []string{g.litName()}
 		}
 		if r.P(0.35) {
 			s.Body = g.attrBody(lgEdgeAttrs, r.Range(1, 2))
@@ -225,11 +247,11 @@ func (g *globGen) glob(depth int) *LStmt {
 	case 1:
 		segs = []string{g.pattern(), g.pattern()}
 	case 2:
-		segs = []string{g.name(), g.pattern()}
+		segs = []string{g.litName(), g.pattern()}
 	case 3:
 		segs = []string{"**"}
 	default:
-		segs = []string{g.name(), "**"}
+		segs = []string{g.litName(), "**"}
 	}
 	s := &LStmt{Tag: "glob"}
 	switch r.Weighted(55, 35, 10) {
@@ -261,7 +283,7 @@ func (g *globGen) path() []string {
 // explicit returns one explicit (glob-free) statement.
 func (g *globGen) explicit(depth int) *LStmt {
 	r := g.r
-	switch r.Weighted(30, 22, 25, 8, 4, 11) {
+	switch r.Weighted(60, 44, 50, 16, 1, 22) {
 	case 0: // object, maybe labelled
 		s := &LStmt{Key: g.path()}
 		if r.P(0.4) {
@@ -302,6 +324,9 @@ func (g *globGen) stmts(n, depth int, boardRoot bool) []*LStmt {
 	r := g.r
 	var out []*LStmt
 	var edges []*LStmt
+	savedDecl := g.decl
+	g.decl = nil
+	defer func() { g.decl = savedDecl }()
 	for i := 0; i < n; i++ {
 		g.nStmt++
 		pg := 0.22
@@ -321,6 +346,9 @@ func (g *globGen) stmts(n, depth int, boardRoot bool) []*LStmt {
 		s := g.explicit(depth)
 		if s.IsEdge() {
 			edges = append(edges, s)
+			g.decl = append(g.decl, s.Src[0], s.Dst[0])
+		} else if len(s.Key) > 0 && !(s.Val != nil && s.Val.Null) {
+			g.decl = append(g.decl, s.Key[0])
 		}
 		out = append(out, s)
 	}
